@@ -111,7 +111,8 @@ class World:
         f[17] = index0
         for (cpos, wpos, cmd, exp), en, w in zip(self.writers, enabled, wk):
             f[cpos] = cmd if en else 0
-            val = {"0": 0, "ok": exp, "bad": exp + 1}[w]
+            val = {"0": 0, "ok": exp, "bad": exp + 1,
+                   "big": 0x1200 + exp}[w]
             struct.pack_into("<H", f, wpos, val)
         return bytes(f)
 
@@ -120,7 +121,8 @@ class World:
         for cpos, wpos, cmd, exp in self.writers:
             enabled.append(frame[cpos] != 0)
             v, = struct.unpack_from("<H", frame, wpos)
-            wk.append("0" if v == 0 else "ok" if v == exp else "bad")
+            wk.append("0" if v == 0 else "ok" if v == exp else
+                      "big" if v >= 256 else "bad")
         return (frame[17], tuple(enabled), tuple(wk))
 
     def set_state(self, c, wkc_err):
@@ -230,6 +232,10 @@ def explore(world, starts, depth, res, on_step, max_states=200000,
                     k = en.index(True)
                     bad[k] = "bad"
                     variants.add(tuple(bad))
+                    # a corrupted reply: a counter beyond one byte
+                    big = list(bad)
+                    big[k] = "big"
+                    variants.add(tuple(big))
                 for v in variants:
                     nf = (idx0, en, v)
                     succ.append(((c2 & 0xff, tuple(sorted(rest + (nf,))),
